@@ -96,6 +96,21 @@ fn grammar() -> &'static Grammar {
     G.get_or_init(|| Grammar::load(&format!("{}/parser/src/simplesl.pest", run::repo_root())).expect("grammar"))
 }
 
+fn paren_depth(text: &str) -> usize {
+    let (mut d, mut max) = (0usize, 0usize);
+    for c in text.chars() {
+        match c {
+            '(' => {
+                d += 1;
+                max = max.max(d);
+            }
+            ')' => d = d.saturating_sub(1),
+            _ => {}
+        }
+    }
+    max
+}
+
 fn nesting_depth(text: &str) -> usize {
     let (mut d, mut max) = (0usize, 0usize);
     for c in text.chars() {
@@ -414,6 +429,11 @@ impl Property for C03Prop {
         let src = case["src"].as_str().unwrap_or("?");
         if nesting_depth(text) > 40 {
             return Verdict::Discard("nesting deeper than 40 (stack exhaustion is outside the claim)");
+        }
+        if paren_depth(text) > 12 {
+            // the grammar backtracks over `(`: parse time doubles with every level (depth 20 takes
+            // seconds, depth 30 hours); time is outside the claim, and a check must not hang
+            return Verdict::Discard("parentheses nested deeper than 12 (parse time doubles per level)");
         }
         if unsafe_import(text) {
             return Verdict::Discard("import of a path outside the scratch directory");
